@@ -81,3 +81,8 @@ def r5(cx):
 def r6(cx):
     rule_seq_floor_on_open(cx)
     rule_wal_open_floor(cx)
+
+
+@rule("C02", "C02.R7", "rotation makes the outgoing WAL segment and the new segment's name durable")
+def r7(cx):
+    rule_rotation_seals_segment(cx)
